@@ -10,6 +10,7 @@ SRCS = ["lib/topology/topology.c", "lib/random/random.c", "lib/random/xxtea.c"]
 
 
 def build(d, san=False):
+    os.makedirs(d, exist_ok=True)
     flags = list(vc.BASE_FLAGS) + ["-w", "-I" + vc.SRC, "-I" + os.path.join(vc.VERIF, "harness")]
     if san:
         flags += vc.SAN_FLAGS
